@@ -174,7 +174,6 @@ func refResolve(cs []rcand, p string, ps []rparam) []routcome {
 	return res
 }
 
-
 func sameOutcome(o routcome, id int, ps zzParamsLike) bool {
 	if o.id != id || len(o.ps) != ps.Count() {
 		return false
@@ -190,20 +189,20 @@ func sameOutcome(o routcome, id int, ps zzParamsLike) bool {
 
 // zzC02Pool: patterns that share prefixes, split each other and compete.
 var zzC02Pool = []string{
-	"/u/{id}/{p:\\d+}", // 1
-	"/u/{id}/{a}/l",    // 2
-	"/u/me",            // 3
-	"/k{n:digit}",      // 4
-	"/u/{id}",          // 5
-	"/f/{r:[a-z]+}.h",  // 6
-	"/u/{id}/x",        // 7
-	"/u/{n:digit}/x",   // 8
-	"/u/{-q:\\d+}/y",   // 9
-	"/f/{r:[a-z]+}.j",  // 10
-	"/u/{w:word}",      // 11
-	"/f/{r:[a-z]+}",    // 12
-	"/u/m{z}",          // 13
-	"/{s}-{t}",         // 14
+	"/u/{id}/{p:\\d+}",     // 1
+	"/u/{id}/{a}/l",        // 2
+	"/u/me",                // 3
+	"/k{n:digit}",          // 4
+	"/u/{id}",              // 5
+	"/f/{r:[a-z]+}.h",      // 6
+	"/u/{id}/x",            // 7
+	"/u/{n:digit}/x",       // 8
+	"/u/{-q:\\d+}/y",       // 9
+	"/f/{r:[a-z]+}.j",      // 10
+	"/u/{w:word}",          // 11
+	"/f/{r:[a-z]+}",        // 12
+	"/u/m{z}",              // 13
+	"/{s}-{t}",             // 14
 	"/k{n:digit}/{e:\\w*}", // 15
 }
 
@@ -232,26 +231,26 @@ func init() {
 		zzC02Tables = append(zzC02Tables, pick(t...))
 	}
 	zzC02Tables = append(zzC02Tables,
-		[]string{"/a/x", "/b", "/c", "/d", "/e", "/{p}/y"},                                      // 16: indexed literal with children fails, parameter sibling takes over
-		[]string{"/{p}/y", "/e", "/d", "/c", "/b", "/a/x", "/a/{q:digit}"},                      // 17: the same, other order, plus a parameter under the literal
-		[]string{"/a", "/b", "/c", "/d", "/{n:digit}", "/{w:word}", "/{r:[a-c]+}", "/{s}"},      // 18: >=5 children, four of them parameters of different kinds
-		[]string{"/abc", "/abd", "/ab", "/a", "/abcd/{x}", "/{x}bc"},                            // 19: deep literal splitting
-		[]string{"/{x}bc", "/abcd/{x}", "/a", "/ab", "/abd", "/abc"},                            // 20: reverse order
-		[]string{"/{a}-{b}", "/{a}-x", "/{a}/y", "/{a}"},                                        // 21: one parameter, several suffixes
-		[]string{"/{a:any}/1", "/{d:digit}/2", "/{w:word}/3", "/{n}/4", "/{d:digit}"},           // 22: three interceptors and a named parameter at one position
-		[]string{"/u/{id}/{p:\\d+}", "/u/{id}/{p2:\\d+}/z", "/u/{id}/{a}", "/u/{id}", "/u/{id}/"}, // 23: endpoint vs continuing, regexp with and without tail
-		[]string{"/f/{id:\\d+}/a", "/f/{id:\\d+}/b", "/f/{p:any}"},                               // 24: endpoint-leaf interceptor next to a regexp that has children
-		[]string{"/f/{p:any}", "/f/{id:\\d+}/b", "/f/{id:\\d+}/a", "/f/{n}"},                     // 25: other order, plus a named endpoint
-		[]string{"/u", "/u/{id}/p", "/u/{id}/l"},                                                  // 26: a route node above a route-less parameter node
-		[]string{"/a", "/a/b/c", "/a/b/d", "/a/c", "/a/d", "/a/e", "/a/f", "/a/{x}/g"},            // 27: the same through the first-byte index
-		[]string{"/a/u", "/a/su", "/a/sv"},                                                        // 28: the tail of a split node equals the text of an existing sibling
-		[]string{"/p/d", "/p/{id}/d", "/p/{id}/c", "/p/{id}"},                                     // 29: the same below a parameter
-		[]string{"/i/{n:u}", "/i/{r:[a-c]+}", "/i/{s}", "/i/{n:u}/x", "/w/{m:u}.t"},               // 30: an arbitrary (uninterpreted) user interceptor
+		[]string{"/a/x", "/b", "/c", "/d", "/e", "/{p}/y"},                                              // 16: indexed literal with children fails, parameter sibling takes over
+		[]string{"/{p}/y", "/e", "/d", "/c", "/b", "/a/x", "/a/{q:digit}"},                              // 17: the same, other order, plus a parameter under the literal
+		[]string{"/a", "/b", "/c", "/d", "/{n:digit}", "/{w:word}", "/{r:[a-c]+}", "/{s}"},              // 18: >=5 children, four of them parameters of different kinds
+		[]string{"/abc", "/abd", "/ab", "/a", "/abcd/{x}", "/{x}bc"},                                    // 19: deep literal splitting
+		[]string{"/{x}bc", "/abcd/{x}", "/a", "/ab", "/abd", "/abc"},                                    // 20: reverse order
+		[]string{"/{a}-{b}", "/{a}-x", "/{a}/y", "/{a}"},                                                // 21: one parameter, several suffixes
+		[]string{"/{a:any}/1", "/{d:digit}/2", "/{w:word}/3", "/{n}/4", "/{d:digit}"},                   // 22: three interceptors and a named parameter at one position
+		[]string{"/u/{id}/{p:\\d+}", "/u/{id}/{p2:\\d+}/z", "/u/{id}/{a}", "/u/{id}", "/u/{id}/"},       // 23: endpoint vs continuing, regexp with and without tail
+		[]string{"/f/{id:\\d+}/a", "/f/{id:\\d+}/b", "/f/{p:any}"},                                      // 24: endpoint-leaf interceptor next to a regexp that has children
+		[]string{"/f/{p:any}", "/f/{id:\\d+}/b", "/f/{id:\\d+}/a", "/f/{n}"},                            // 25: other order, plus a named endpoint
+		[]string{"/u", "/u/{id}/p", "/u/{id}/l"},                                                        // 26: a route node above a route-less parameter node
+		[]string{"/a", "/a/b/c", "/a/b/d", "/a/c", "/a/d", "/a/e", "/a/f", "/a/{x}/g"},                  // 27: the same through the first-byte index
+		[]string{"/a/u", "/a/su", "/a/sv"},                                                              // 28: the tail of a split node equals the text of an existing sibling
+		[]string{"/p/d", "/p/{id}/d", "/p/{id}/c", "/p/{id}"},                                           // 29: the same below a parameter
+		[]string{"/i/{n:u}", "/i/{r:[a-c]+}", "/i/{s}", "/i/{n:u}/x", "/w/{m:u}.t"},                     // 30: an arbitrary (uninterpreted) user interceptor
 		[]string{"/a/x", "/a/y", "/b/x", "/b/y", "/c/x", "/c/y", "/d/x", "/d/y", "/e/x", "/e/y", "/bb"}, // 31: five non-leaf literal siblings, then a split of one that is not the last
-		[]string{"/p/{id}/au", "/p/{id}/{g:\\w+}", "/p/{id}/{n:digit}"},                           // 32: the literal tail of a split parameter node against later regexp / interceptor siblings
-		[]string{"/p/{id}/{n:digit}", "/p/{id}/{g:\\w+}", "/p/{id}/au"},                           // 33: reverse order
-		[]string{"/t/a", "/t/b", "/t/\u4e2d", "/t/c", "/t/d", "/t/{n}"},                            // 34: an indexed literal that starts with a non-ASCII byte, parameter sibling
-		[]string{"/t/d", "/t/\u00e9x", "/t/c", "/t/b", "/t/a"},                                    // 35: exactly five literals, one non-ASCII, no parameter
+		[]string{"/p/{id}/au", "/p/{id}/{g:\\w+}", "/p/{id}/{n:digit}"},                                 // 32: the literal tail of a split parameter node against later regexp / interceptor siblings
+		[]string{"/p/{id}/{n:digit}", "/p/{id}/{g:\\w+}", "/p/{id}/au"},                                 // 33: reverse order
+		[]string{"/t/a", "/t/b", "/t/\u4e2d", "/t/c", "/t/d", "/t/{n}"},                                 // 34: an indexed literal that starts with a non-ASCII byte, parameter sibling
+		[]string{"/t/d", "/t/\u00e9x", "/t/c", "/t/b", "/t/a"},                                          // 35: exactly five literals, one non-ASCII, no parameter
 	)
 }
 
